@@ -30,6 +30,9 @@ def generate(seed, mode="c01", base_cfg=None):
     if mode == "c04":
         base_cfg = dict(base_cfg or {})
         base_cfg.update({"history": True, "portrefs": True, "noconn": True})
+    if mode == "c05":
+        base_cfg = dict(base_cfg or {})
+        base_cfg.update({"adv_members": ch.chance(1, 2), "bundles": True, "n_bundles": ch.rint(1, 3, "c05nb")})
     cfg = gen.draw_cfg(ch, base_cfg)
     ops, mids, g = gen.gen_design(ch, cfg)
     top = mids[-1]
@@ -192,7 +195,7 @@ def execute(scn):
         elif not ok:
             res["findings"].append({"prop": prop, "clause": "partition:" + diffs[0].split(":")[0], "detail": diffs[:4]})
         # second, independent reading: the SPICE netlist text
-        if ok and not netview.uses_physical_prims(pkg):
+        if ok and netview.netlistable(pkg):
             nl = it.run(["netlist", [top], "spice", True])
             if not nl["ok"]:
                 probe("netlist_rejected_after_export")
